@@ -140,14 +140,105 @@ def check_word(seq, case):
     return out, calls
 
 
+def splits(letters):
+    s_ = sorted(letters)
+    return [(s_[:i], s_[i:]) for i in range(1, len(s_))]
+
+
+def check_collisions(case):
+    """Histories on ONE live object built to collide on sloppy memo keys: every prefix split of a sorted letter set as a
+    two-group call, the whole set as a one-group call, Omega and kappa, in several orders; plus calls in the unspecified
+    domain (overlapping / identical groups) whose RESULTS are not judged but which must not disturb later specified calls."""
+    seq = case["seq"]
+    out = []
+    calls = 0
+
+    def v(key, what, **kw):
+        out.append({"key": key, "what": what, "case": dict(case, **kw)})
+
+    def fresh(kind, g1=None, g2=None):
+        o = SP(seq)
+        if kind == "omega":
+            return o.get_Omega()
+        if kind == "kappa":
+            return o.get_kappa()
+        return o.get_kappa_X(list(g1)) if g2 is None else o.get_kappa_X(list(g1), list(g2))
+    plan = []
+    for letters in ("DEKPR", "DEKR", "AGST", "EKPG"):
+        plan.append(("kx", list(letters), None))
+        for a, b in splits(letters):
+            plan.append(("kx", a, b))
+            plan.append(("kx", b, a))
+    plan += [("omega", None, None), ("kappa", None, None), ("kx", ["E", "D"], ["K", "R"]), ("kx", ["K", "R"], None),
+             ("kx", ["P", "E", "D", "K", "R"], None)]
+    want = {}
+    for item in plan:
+        key = repr(item)
+        if key not in want:
+            try:
+                want[key] = fresh(*item)
+                calls += 1
+            except Exception as e:  # noqa
+                want[key] = ("EXC", type(e).__name__)
+    poison = [(["D", "E", "K"], ["K", "R"]), (["E", "D"], ["E", "D"]), (["K", "R"], ["K", "R"]), (["P", "E", "D", "K", "R"], ["P"]),
+              (["K", "R"], ["R"])]
+    for order, with_poison in ((plan, False), (list(reversed(plan)), False), (plan[::2] + plan[1::2], True)):
+        o = SP(seq)
+        if with_poison:
+            for g1, g2 in poison:
+                try:
+                    o.get_kappa_X(list(g1), list(g2))      # unspecified domain: result not judged
+                    SP(seq).get_kappa_X(list(g1), list(g2))
+                    calls += 2
+                except Exception:  # noqa
+                    pass
+        for item in order:
+            kind, g1, g2 = item
+            try:
+                calls += 1
+                got = o.get_Omega() if kind == "omega" else (o.get_kappa() if kind == "kappa" else (
+                    o.get_kappa_X(list(g1)) if g2 is None else o.get_kappa_X(list(g1), list(g2))))
+            except Exception as e:  # noqa
+                got = ("EXC", type(e).__name__)
+            w = want[repr(item)]
+            same = (got == w) if isinstance(w, tuple) or isinstance(got, tuple) else eq(got, w)
+            if not same:
+                v("depends-on-earlier-calls" + ("-after-unspecified-calls" if with_poison else ""),
+                  "%s: on a reused object %s(%r,%r) returned %r but a fresh object gives %r" % (seq, kind, g1, g2, got, w),
+                  call=[kind, g1, g2])
+                break
+        if with_poison:
+            # a brand-new object after the unspecified calls: module-level state must not have been disturbed either
+            for item in (("kx", ["E", "D"], ["K", "R"]), ("kx", ["K", "R"], None), ("kappa", None, None)):
+                try:
+                    got = fresh(*item)
+                    calls += 1
+                except Exception as e:  # noqa
+                    got = ("EXC", type(e).__name__)
+                w = want[repr(item)]
+                same = (got == w) if isinstance(w, tuple) or isinstance(got, tuple) else eq(got, w)
+                if not same:
+                    v("depends-on-earlier-calls-after-unspecified-calls",
+                      "%s: after calls with overlapping groups, a NEW object's %s(%r,%r) returns %r instead of %r"
+                      % (seq, item[0], item[1], item[2], got, w), call=list(item))
+    return out, calls
+
+
 def check_invalid(case):
     """A group containing a non-amino-acid, at every position of either group, must be rejected."""
     out = []
     calls = 0
     seq = case["seq"]
-    base1, base2 = ["E", "D", "P"], ["K", "R"]
+    absent = [a for a in T.AA if a not in seq]
+    bases = [(["E", "D", "P"], ["K", "R"])]
+    if len(absent) >= 4:
+        bases.append((absent[:2], absent[2:4]))     # groups none of whose members occurs in the sequence
+    bases.append(([], ["K"]))                      # the invalid member alone in its group
     for bad in INVALID:
+      for base1, base2 in bases:
         for which in (1, 2, 0):
+            if which == 2 and not base1:
+                continue
             base = base1 if which in (1, 0) else base2
             for pos in range(len(base) + 1):
                 g = base[:pos] + [bad] + base[pos:]
@@ -166,6 +257,8 @@ def check_invalid(case):
 def check_case(case):
     if case["kind"] == "invalid":
         return check_invalid(case)
+    if case["kind"] == "collisions":
+        return check_collisions(case)
     return check_word(case["seq"], case)
 
 
@@ -209,6 +302,10 @@ def run(tier, seed, t0):
     for w in ["KEPGDRSTYA", "ACDEFGHIKLMNPQRSTVWY", "WYVTSRQPNMLKIHGFEDCA"]:
         cases.append({"kind": "word", "seq": w, "assignments": False})
         cases.append({"kind": "invalid", "seq": w})
+    for w in ["GSGSEKPDRG", "GGSSGGSSGG", "KEKEK"]:
+        cases.append({"kind": "invalid", "seq": w})
+    for w in ["KEPGDRSTYAGS", "DKDKPEPRSTAG", "EEKKPPGGDDRRAASSTT", "KPEGSDRATKEPG"]:
+        cases.append({"kind": "collisions", "seq": w})
     cases.sort(key=lambda c: -len(c["seq"]) * (81 if c.get("assignments") else 1))
     nsh = 16 * 8
     acc = core.pmap(shard, [cases[i::nsh] for i in range(nsh)])
@@ -218,7 +315,10 @@ def run(tier, seed, t0):
              "(group 1 / group 2 / neither), each with swapped groups and three paddings by absent residues with permuted member "
              "order and mixed case; one-group calls vs the complementary two-group call; all those calls repeated in forward and reverse order on one reused object each (must equal the fresh-object results); every 2-residue word over the 20 amino "
              "acids, every word over {PEDKR-class, other-class} of length 5..10 (thorough 13) and three 10-20-mers for Omega == kappa(recoded) == kappa_X(PEDKR), kappa == kappa_X(ED,KR) and the Omega "
-             "string; 8 invalid members at every position of either group must be rejected. Expected values are real "
+             "string; 8 invalid members at every position of either group must be rejected (also in groups none of whose valid members occurs in "
+             "the sequence, and alone in their group). Collision histories on one reused object: every prefix split of the sorted letter "
+             "sets DEKPR, DEKR, AGST, EKPG as two-group calls in both orders, the whole set as one group, Omega and kappa, in three orders, "
+             "once after calls with overlapping/identical groups whose own results are not judged. Expected values are real "
              "get_kappa() calls on the independently recoded sequence. dont-care: overlapping groups, empty second group with "
              "the ternary reading. non-trivial = words of length>=5 with >=2 letters (shorter ones have kappa -1 by definition); quick uses one of the three paddings per assignment" % (L, L),
         bounds={"L": L, "assignments": 81, "invalid_members": [repr(x) for x in INVALID]},
